@@ -86,4 +86,4 @@ with open(os.path.join(V, "seeded", "MATRIX.md"), "w") as fh:
         res = "; ".join("%s %s: **%s**" % (d["check"], d["args"], d["verdict"]) for d in det) or "not run yet"
         fh.write("| %s | %s `%s` | %s | %s |\n" % (sid, f, fn, what.replace("|", "/").replace("\n", " "), res))
     caught = sum(1 for r in rows if any(d["verdict"] == "VIOLATION" for d in r[4]))
-    fh.write("\n%d of %d seeded changes are reported as violations by a quick-tier check.\n" % (caught, len(rows)))
+    fh.write("\n%d of %d seeded changes are reported as violations by a registered check (quick tier unless the row says `--tier thorough`).\n" % (caught, len(rows)))
